@@ -146,6 +146,7 @@ def main(argv) -> int:
         with contextlib.redirect_stdout(io.StringIO()):
             mod.run(ctx)
     except Infra as e:
+        _restore_tables(mod)
         print(f"INFRA {prop}: {e}", file=sys.stderr)
         return 2
     except Exception:
@@ -153,6 +154,7 @@ def main(argv) -> int:
         print(f"INFRA {prop}: harness exception", file=sys.stderr)
         return 2
 
+    _restore_tables(mod)
     known = core.load_known().get(prop, [])
     known_sigs = {k["signature"]: k for k in known if k.get("status", "open") == "open"}
     new = [f for f in ctx.failures if f["signature"] not in known_sigs]
@@ -188,6 +190,16 @@ def main(argv) -> int:
           f"disagree={len(ctx.disagreements)} oracle_fail={len(ctx.failures)} known={len(seen_known)} "
           f"broken={len(ctx.broken)} wall={ctx.elapsed():.1f}s -> exit {status}")
     return status
+
+
+def _restore_tables(mod) -> None:
+    """a run against a scratch worktree (seeded mutant) regenerated Generated/Tables.lean from that tree:
+    put the tables of /repo back so that later runs of other properties are not disturbed"""
+    if getattr(mod, "USES_TABLES", False) and str(core.REPO) != "/repo":
+        import subprocess
+        env = dict(os.environ, PYDOCTOR_REPO="/repo", PYTHONPATH=f"/repo:{VERIF}")
+        subprocess.run(["/venv/bin/python", "-c", "from harness import tables; tables.generate()"], cwd=str(VERIF), env=env,
+                       stdout=subprocess.DEVNULL, stderr=subprocess.DEVNULL)
 
 
 def _generic_replay(obj) -> int:
